@@ -324,18 +324,20 @@ class Cfg:
         return {self.prefix} if (self.pk != 'status' or self.dk != 'status') else set()
 
 
-def make_config(pk, dk, prefix, v1):
+def make_config(pk, dk, prefix, v1, ignored_fields=None):
     """One supported storage configuration, built from the real classes exactly as an operator's
-    `settings.persistence.*_storage = ...` would (docs/configuration.rst)."""
+    `settings.persistence.*_storage = ...` would (docs/configuration.rst).  `ignored_fields`: the diff-base storages'
+    constructor argument of that name (the composite storage has none of its own: its members carry it)."""
     from kopf._cogs.configs import diffbase, progress
+    ign = {} if ignored_fields is None else {'ignored_fields': list(ignored_fields)}
     p = {'annotations': lambda: progress.AnnotationsProgressStorage(prefix=prefix, v1=v1),
          'status': lambda: progress.StatusProgressStorage(),
          'smart': lambda: progress.SmartProgressStorage(prefix=prefix, v1=v1),
          'multi': lambda: progress.MultiProgressStorage([progress.AnnotationsProgressStorage(prefix=prefix, v1=v1),
                                                          progress.StatusProgressStorage()])}[pk]()
-    d = {'annotations': lambda: diffbase.AnnotationsDiffBaseStorage(prefix=prefix, v1=v1),
-         'status': lambda: diffbase.StatusDiffBaseStorage(),
-         'multi': lambda: diffbase.MultiDiffBaseStorage([diffbase.AnnotationsDiffBaseStorage(prefix=prefix, v1=v1),
+    d = {'annotations': lambda: diffbase.AnnotationsDiffBaseStorage(prefix=prefix, v1=v1, **ign),
+         'status': lambda: diffbase.StatusDiffBaseStorage(**ign),
+         'multi': lambda: diffbase.MultiDiffBaseStorage([diffbase.AnnotationsDiffBaseStorage(prefix=prefix, v1=v1, **ign),
                                                          diffbase.StatusDiffBaseStorage()])}[dk]()
     return Cfg(pk, dk, prefix, v1, p, d)
 
@@ -353,14 +355,26 @@ def essence_of(cfg, body, extra_fields=()):
     return cfg.progress.clear(essence=built)
 
 
+def essence_and_clear_purity(cfg, body, extra_fields=()):
+    """(essence_cfg(body), "clear() left the essence it was given as it was").  The second component is what H5 trusts when it
+    takes progress_storage.clear as a pure function of its argument (the interface's own clear() hands out a copy)."""
+    from kopf._cogs.structs import bodies
+    built = cfg.diffbase.build(body=bodies.Body(body), extra_fields=list(extra_fields))
+    frozen = json.dumps(built, sort_keys=True)
+    cleared = cfg.progress.clear(essence=built)
+    return cleared, json.dumps(built, sort_keys=True) == frozen
+
+
 def same(e1, e2):
     """`≅` on essences (see E3): the change detector sees no difference."""
     return _plain_eq(norm(e1), norm(e2))
 
 
-def storage_writes(cfg, body, extra_fields=()):
+def storage_writes(cfg, body, extra_fields=(), handler_result=True):
     """Every patch the storage code of `cfg` itself produces against `body` (one fresh Patch each, plus
-    one combined patch as a handling cycle forms it).  Returns [(label, merge-patch dict)]."""
+    one combined patch as a handling cycle forms it -- with a handler's result under status.<id> unless
+    `handler_result` is off: a result is a status change like any other, not one of the storages' writes).
+    Returns [(label, merge-patch dict)]."""
     from kopf._cogs.structs import bodies, patches
     view = bodies.Body(body)
     out = []
@@ -387,7 +401,8 @@ def storage_writes(cfg, body, extra_fields=()):
         cfg.progress.purge(key='outer/inner_sub', body=view, patch=p)
         cfg.progress.touch(body=view, patch=p, value='2020-01-01T00:00:09')
         cfg.diffbase.store(body=view, patch=p, essence=ess)
-        p.status['fn'] = {'result': 'done'}
+        if handler_result:
+            p.status['fn'] = {'result': 'done'}
     emit('whole-cycle', cycle)
     return out
 
@@ -609,7 +624,10 @@ def E1(b):
       everything_else_counts         a changed/added/removed leaf under spec, other top-level payload field, label, or
                                      annotation outside the operators' prefixes -- including keys of other domains that merely begin
                                      like such a prefix (kopf.zalando.organic/..) -- (and an extra field) changes essence_cfg
-      pure                           build/clear do not mutate the body
+      pure                           build/clear do not mutate the body; clear does not modify the essence it is given (it
+                                     returns a cleaned copy: H5 takes it as a pure function of its argument)
+    The configurations E1 leaves out (handlers interested in `status` itself, bodies without apiVersion/kind, diff-base
+    storages with ignored_fields) are E1x's.
     Bounded stand-in (labelled B): build/clear are compositions of deepcopy, recursive dicts.cherrypick/remove and
     string-prefix scans over arbitrary JSON; the non-recursive helpers are contracted separately (E2).
     """
@@ -628,8 +646,9 @@ def E1(b):
             extras_list = (EXTRAS[(bi + ci) % len(EXTRAS)],)
             for extra in extras_list:
                 frozen = json.dumps(body, sort_keys=True)
-                e0 = essence_of(cfg, body, extra)
+                e0, clear_was_pure = essence_and_clear_purity(cfg, body, extra)
                 ctx = dict(config=cfg.name, extra_fields=[list(x) for x in extra])
+                b.check('pure', clear_was_pure, lambda: dict(ctx, body=body, what='progress_storage.clear modified the essence it was given'))
 
                 def invisible(clause, label, body2, excuse=None, who=None):
                     if any(not same(resolve_ref(body2, path), resolve_ref(body, path)) for path in extra):
@@ -680,6 +699,201 @@ def E1(b):
                             lambda: dict(ctx, change=label, body=body, after=body2, essence=e0, raised=error),
                             excuse=F3 if error and error.startswith('TypeError') and through_scalar else None)
                 b.check('pure', json.dumps(body, sort_keys=True) == frozen, lambda: dict(ctx, body=body))
+
+
+# =========================================================================== E1x: the configurations E1 leaves out
+STATUS_EXTRAS = ((('status',),), (('status', 'kopf'),), (('status',), ('spec', 'x')))
+X_SPECS = ({'x': 1}, {'x': {'y': None, 'z': [0]}, 'noise': 'n0', 'w': 'ü'}, {'x': 'a', 'noise': {'deep': [1]}})
+X_STATUSES = (ABS, {}, {'observed': 1, 'fn': {'message': 'ok'}}, {'kopf': {'dummy': 'then'}, 'observed': 2})
+X_KINDS = ((), ('own-progress',), ('own-diffbase',), ('own-progress', 'own-diffbase', 'user'), ('other-operator', 'own-progress'))
+IGNORED_FIELDS = ('spec.noise', ('metadata', 'labels', 'pod-template-hash'), 'data.k.deep', 'never.there')
+
+
+def _x_bodies(cfg, other, per_kind=2):
+    for i, kinds in enumerate(X_KINDS):
+        for r in range(per_kind):
+            j = 2 * i + r
+            base = base_body(X_SPECS[j % len(X_SPECS)], X_STATUSES[(i + 2 * r + 1) % len(X_STATUSES)], LABELS[j % len(LABELS)],
+                             DATAS[(j // 2) % len(DATAS)], SYSMETA[(j + r) % len(SYSMETA)])
+            yield with_annotations(base, kinds, cfg, other), kinds
+
+
+def _without_field(essence, path):
+    """The essence minus the value at `path` and minus the (then) empty mappings on the way to it."""
+    e = copy.deepcopy(essence)
+    chain = [e]
+    for key in path[:-1]:
+        nxt = chain[-1].get(key) if isinstance(chain[-1], dict) else None
+        if not isinstance(nxt, dict):
+            return e
+        chain.append(nxt)
+    chain[-1].pop(path[-1], None)
+    for parent, key in reversed(list(zip(chain[:-1], path[:-1]))):
+        if parent.get(key) == {}:
+            del parent[key]
+    return e
+
+
+def _status_touch_fields(cfg):
+    """The touch fields of the configuration's progress storages that write into `status` (the no-write member of the
+    smart storage never touches)."""
+    from kopf._cogs.configs import progress
+    out = []
+    for x in [cfg.progress] + list(getattr(cfg.progress, 'storages', [])):
+        if isinstance(x, progress.StatusProgressStorage) and not isinstance(x, progress.NoWriteStatusProgressStorage):
+            out.append(tuple(x.touch_field))
+    return out
+
+
+@bounded('E1x', targets=['kopf._cogs.configs.diffbase.DiffBaseStorage.build', 'kopf._cogs.configs.diffbase.AnnotationsDiffBaseStorage.build',
+                         'kopf._cogs.configs.diffbase.StatusDiffBaseStorage.build', 'kopf._cogs.configs.diffbase.MultiDiffBaseStorage.build',
+                         'kopf._cogs.configs.progress.AnnotationsProgressStorage.clear', 'kopf._cogs.configs.progress.StatusProgressStorage.clear',
+                         'kopf._cogs.configs.progress.MultiProgressStorage.clear'],
+         props=['C04', 'C03'],
+         clauses=['own_storage_writes_invisible', 'stored_essence_is_fixpoint', 'watched_status_changes_count',
+                  'resource_references_invisible', 'ignored_field_changes_invisible', 'everything_else_counts', 'pure'],
+         universe='(a) handlers interested in the status stanza itself: the 72 configurations of E1 x extra_fields {status; status.kopf; '
+                  'status + spec.x} (two of the three per body, rotating) x 10 bodies (own progress / own diff-base / another operator\'s '
+                  'state produced by the real storage code, in annotations or in status as configured; 3 spec, 4 status, 3 label, 2 data, '
+                  '2 system-metadata shapes rotating) x the storages\' own writes of E1 (the whole-cycle patch without a handler result); '
+                  '(b) the same bodies with apiVersion and/or kind absent (3 variants), extra_fields (); '
+                  '(c) 24 configurations {Annotations,Status progress} x {Annotations,Status,Multi diff-base} x 2 prefixes x v1 {T,F} whose '
+                  'diff-base storages carry ignored_fields (spec.noise, a label as a tuple path, a path through a scalar, an absent path) '
+                  'x 10 bodies x 6 ignored edits + 5 essential edits; exhaustive over the stated universe')
+def E1x(b):
+    """
+    essence_cfg (see E1) on the configurations that E1 does not draw.  Property C04, first sentence:
+     (a) a handler may declare interest in `status` or a part of it (`field='status'`, docs/handlers.rst "to react to changes in the
+         status"): status then counts -- but the framework's own writes still "never count as a change":
+      own_storage_writes_invisible   for every patch w the configuration's own storages produce (progress store/purge/touch, diff-base
+                                     store, marker, a whole cycle of them): essence_cfg(merge(body, w)) ≅ essence_cfg(body), also
+                                     when extra_fields covers the status fields the storages write to.
+                                     Known finding F-C04-4: StatusProgressStorage.touch writes status.<name>.dummy, which clear() does
+                                     not remove; excused class: the two essences differ at that touch field only.
+      stored_essence_is_fixpoint     after diffbase.store(essence_cfg(body)): clear(fetch(body')) ≅ essence_cfg(body')
+      watched_status_changes_count   a change of status.observed / status.conditions (not the storages') under a watched `status` counts
+     (b) resource_references_invisible  apiVersion/kind identify the resource and are no part of its state: a representation of the
+                                     object that lacks them (items of a list response, docs: "system fields ... removed") yields the
+                                     same essence as one that has them; building the essence never fails on their absence
+     (c) ignored_fields= of a diff-base storage names fields whose changes are not to be seen:
+      ignored_field_changes_invisible adding / changing / removing a value at or below an ignored field leaves essence_cfg as it is
+      everything_else_counts         a sibling of an ignored field, another label, spec.x still count (also when an ignored path
+                                     runs through a scalar of the body: it is skipped)
+      pure                           build does not mutate the body, clear does not modify the essence it is given
+    Bounded stand-in (labelled B) for the same reason as E1.
+    """
+    from kopf._cogs.structs import bodies, patches
+    F4 = 'F-C04-4'
+    configs = all_configs()
+    by_key = {(c.pk, c.dk, c.prefix, c.v1): c for c in configs}
+
+    def essence_or_error(cfg, body, extra):
+        try:
+            return essence_of(cfg, body, extra), None
+        except Exception as e:
+            return None, f'{type(e).__name__}: {e}'
+
+    # ---------------------------------------------------------------- (a) handlers interested in status
+    for ci, cfg in enumerate(configs):
+        other = by_key[(('status', 'status') if ci % 2 else ('smart', 'annotations')) + (next(p for p in PREFIXES if p != cfg.prefix), cfg.v1)]
+        touch_fields = _status_touch_fields(cfg)
+        for bi, (body, kinds) in enumerate(_x_bodies(cfg, other)):
+            for extra in (STATUS_EXTRAS[(bi + ci) % 3], STATUS_EXTRAS[(bi + ci + 1) % 3]):
+                frozen = json.dumps(body, sort_keys=True)
+                e0, clear_was_pure = essence_and_clear_purity(cfg, body, extra)
+                ctx = dict(config=cfg.name, extra_fields=[list(x) for x in extra])
+                b.check('pure', clear_was_pure, lambda: dict(ctx, body=body, what='progress_storage.clear modified the essence it was given'))
+                for label, patch in storage_writes(cfg, body, extra, handler_result=False):
+                    body2 = apply_merge_patch(body, patch)
+                    b.case(key=None, nontrivial=body2 != body)
+                    e1, error = essence_or_error(cfg, body2, extra)
+                    ok = error is None and same(e0, e1)
+                    excuse = None
+                    if not ok and error is None and touch_fields:
+                        r0, r1 = e0, e1
+                        for tf in touch_fields:
+                            r0, r1 = _without_field(r0, tf), _without_field(r1, tf)
+                        if same(r0, r1):       # the excused class: nothing but the touch field(s) differs
+                            excuse = F4
+                    b.check('own_storage_writes_invisible', ok,
+                            lambda: dict(ctx, write=label, patch=patch, body=body, essence_before=e0, essence_after=e1, raised=error),
+                            excuse=excuse)
+                # the stored essence is a fixpoint of the detector
+                patch = patches.Patch()
+                cfg.diffbase.store(body=bodies.Body(body), patch=patch, essence=e0)
+                body2 = apply_merge_patch(body, json.loads(json.dumps(dict(patch))))
+                fetched = cfg.diffbase.fetch(body=bodies.Body(body2))
+                old = cfg.progress.clear(essence=fetched) if fetched is not None else None
+                new, error = essence_or_error(cfg, body2, extra)
+                b.case(key=None)
+                b.check('stored_essence_is_fixpoint', old is not None and error is None and same(old, new),
+                        lambda: dict(ctx, body=body, after_store=body2, old=old, new=new, raised=error))
+                # what the handler asked to see still counts, and so does the spec
+                changes = [('spec.x-changed', {'spec': {'x': 'changed!'}}, 'everything_else_counts')]
+                if ('status',) in extra:
+                    changes += [('status.observed-changed', {'status': {'observed': 'changed!'}}, 'watched_status_changes_count'),
+                                ('status.conditions-added', {'status': {'conditions': [{'type': 'Ready', 'status': 'True'}]}},
+                                 'watched_status_changes_count')]
+                for label, patch, clause in changes:
+                    body2 = apply_merge_patch(body, patch)
+                    e1, error = essence_or_error(cfg, body2, extra)
+                    b.case(key=None)
+                    b.check(clause, error is None and not same(e0, e1),
+                            lambda: dict(ctx, change=label, body=body, after=body2, essence=e0, raised=error))
+                b.check('pure', json.dumps(body, sort_keys=True) == frozen, lambda: dict(ctx, body=body))
+
+    # ---------------------------------------------------------------- (b) representations without apiVersion / kind
+    for ci, cfg in enumerate(configs):
+        other = by_key[('annotations', 'annotations', next(p for p in PREFIXES if p != cfg.prefix), cfg.v1)]
+        for bi, (body, kinds) in enumerate(_x_bodies(cfg, other, per_kind=1)):
+            e0 = essence_of(cfg, body, ())
+            for drop in (('apiVersion',), ('kind',), ('apiVersion', 'kind')):
+                body2 = {k: copy.deepcopy(v) for k, v in body.items() if k not in drop}
+                b.case(key=None)
+                e1, error = essence_or_error(cfg, body2, ())
+                b.check('resource_references_invisible', error is None and same(e0, e1),
+                        lambda: dict(config=cfg.name, absent=list(drop), body=body, essence_with=e0, essence_without=e1, raised=error))
+
+    # ---------------------------------------------------------------- (c) diff-base storages with ignored_fields
+    ignored_edits = (
+        ('spec.noise-changed', {'spec': {'noise': 'n1'}}),
+        ('spec.noise-to-mapping', {'spec': {'noise': {'deep': {'er': 0}}}}),
+        ('spec.noise-removed', {'spec': {'noise': None}}),
+        ('ignored-label-added', {'metadata': {'labels': {'pod-template-hash': 'abc'}}}),
+        ('ignored-label-and-noise', {'metadata': {'labels': {'pod-template-hash': 'xyz'}}, 'spec': {'noise': 0}}),
+        ('absent-ignored-path-added', {'never': {'there': 1}}),
+    )
+    essential_edits = (
+        ('spec.x-changed', {'spec': {'x': 'changed!'}}),
+        ('sibling-of-ignored-added', {'spec': {'noisy': 'v'}}),
+        ('other-label-added', {'metadata': {'labels': {'tier': 'db'}}}),
+        ('data.k-changed', {'data': {'k': 'other'}}),          # `data.k.deep` is ignored, data.k (a scalar here) is not
+        ('annotation-added', {'metadata': {'annotations': {'example.com/added': 'v'}}}),
+    )
+    for pk in ('annotations', 'status'):
+        for dk in DIFFBASE_KINDS:
+            for prefix in PREFIXES[:2]:
+                for v1 in (True, False):
+                    cfg = make_config(pk, dk, prefix, v1, ignored_fields=IGNORED_FIELDS)
+                    other = by_key[('annotations', 'annotations', PREFIXES[2], v1)]
+                    ctx = dict(config=cfg.name, ignored_fields=[list(f) if isinstance(f, tuple) else f for f in IGNORED_FIELDS])
+                    for bi, (body, kinds) in enumerate(_x_bodies(cfg, other)):
+                        frozen = json.dumps(body, sort_keys=True)
+                        e0, clear_was_pure = essence_and_clear_purity(cfg, body, ())
+                        b.check('pure', clear_was_pure, lambda: dict(ctx, body=body, what='progress_storage.clear modified the essence it was given'))
+                        for label, patch in ignored_edits:
+                            body2 = apply_merge_patch(body, patch)
+                            b.case(key=None, nontrivial=body2 != body)
+                            e1, error = essence_or_error(cfg, body2, ())
+                            b.check('ignored_field_changes_invisible', error is None and same(e0, e1),
+                                    lambda: dict(ctx, change=label, body=body, after=body2, essence_before=e0, essence_after=e1, raised=error))
+                        for label, patch in essential_edits:
+                            body2 = apply_merge_patch(body, patch)
+                            b.case(key=None)
+                            e1, error = essence_or_error(cfg, body2, ())
+                            b.check('everything_else_counts', error is None and not same(e0, e1),
+                                    lambda: dict(ctx, change=label, body=body, after=body2, essence=e0, raised=error))
+                        b.check('pure', json.dumps(body, sort_keys=True) == frozen, lambda: dict(ctx, body=body))
 
 
 # =========================================================================== E2
